@@ -330,11 +330,28 @@ def history(r, cid, kinds=("dt", "cdt"), max_ops=14, max_pts=12, f32_share=0.2, 
         elif op == "invalid":
             x, y = r.choice(pool)
             bad = invalid_value(r)
-            if r.chance(0.5):
-                c.add("ins", bad, bits(y), d)
+            k = r.below(10)
+            if k >= 7 and c.kind == "cdt":
+                # add_constraint_edge(s) with one or several invalid vertices (of different classes): the first in input order decides
+                (x2, y2) = r.choice(pool)
+                bad2 = invalid_value(r)
+                v1 = [bad, bits(y), d] if r.chance(0.6) else [bits(x), bits(y), d]
+                v2 = [bits(x2), bad2, d + 1] if (r.chance(0.7) or v1[0] != bad) else [bits(x2), bits(y2), d + 1]
+                if k == 7:
+                    c.add("adde", *(v1 + v2))
+                else:
+                    (x3, y3) = r.choice(pool)
+                    c.add("addes", 3, r.below(2), *([bits(x3), bits(y3), d + 2] + v1 + v2))
+                d += 3
+            elif k >= 4:
+                c.add("insh", *([bad, bits(y)] if r.chance(0.5) else [bits(x), bad]), d, "v%d" % r.below(64))
+                d += 1
             else:
-                c.add("ins", bits(x), bad, d)
-            d += 1
+                if r.chance(0.5):
+                    c.add("ins", bad, bits(y), d)
+                else:
+                    c.add("ins", bits(x), bad, d)
+                d += 1
         elif op in ("addc", "tryc", "split"):
             c.add(op, "v%d" % r.below(64), "v%d" % r.below(64))
         elif op == "rmc":
